@@ -848,6 +848,10 @@ func (e *connectWireError) MarshalJSON() ([]byte, error) {
 		}
 		wire.Details = details
 	}
+	// Error text often quotes peer-supplied bytes. JSON cannot carry invalid
+	// UTF-8, and failing to marshal here would leave the client with an error
+	// status and no error body at all.
+	wire.Message = strings.ToValidUTF8(wire.Message, "\uFFFD")
 	return (&protoJSONCodec{}).Marshal(wire)
 }
 
